@@ -35,6 +35,9 @@
 #ifndef OUTSZ
 #define OUTSZ (TOP_HDR + PLEN)
 #endif
+#ifndef STRAY
+#define STRAY 0          /* 1: the top element's payload holds one extra byte behind its last child (PLEN includes it) */
+#endif
 #ifndef BRK
 #define BRK (-1)            /* -1 well-formed; k>=0: child k declares one byte more than it has; 100: top declares one more; 101: top declares one less */
 #endif
@@ -58,6 +61,9 @@ int KSI_FTLV_memRead(const unsigned char *m, size_t l, KSI_FTLV *t) {
 			return KSI_OK;
 		}
 	}
+	/* stray-byte layouts (STRAY = 1): one leftover byte behind the last child; H-1 proves that the real reader
+	 * refuses any buffer shorter than two bytes */
+	if (l < 2) return KSI_INVALID_FORMAT;
 	CHECK(0, "C09.H4 model: header read at an offset that starts no element of the layout");
 	return KSI_INVALID_FORMAT;
 }
@@ -103,7 +109,12 @@ void harness(void) {
 #if NCH > 0
 	KSI_LIST(KSI_TLV) *lst = NULL;
 	res = KSI_TLV_getNestedList(tlv, &lst);
-#if BRK >= 0 && BRK < 100
+#if STRAY
+	CHECK(res != KSI_OK, "C09.H4 a payload with a leftover byte behind its last element is not exactly tiled: expansion fails");
+	WITNESS_POINT("leftover byte rejected");
+	KSI_TLV_free(tlv);
+}
+#elif BRK >= 0 && BRK < 100
 	CHECK(res != KSI_OK, "C09.H4 a child overrunning its parent's payload makes the expansion fail");
 	WITNESS_POINT("overrunning child rejected");
 	KSI_TLV_free(tlv);
